@@ -31,6 +31,81 @@ def small_or_len(v):
     return False
 
 
+NARROW = ('u8', 'u16', 'u32', 'bool', 'char')
+
+
+def field_bounded(F, adt, name, depth=0):
+    """every value ever stored in field `name` of `adt` (assignments anywhere in the crate and struct literals) is a widened
+    narrow unsigned integer or a small constant: the field never exceeds 2^32"""
+    key = ('_fb', adt, name)
+    cache = F.__dict__.setdefault('_fb_cache', {})
+    if key in cache:
+        return cache[key]
+    cache[key] = False     # cycles: assume nothing
+    a = F.adts.get(adt)
+    if not a or a['kind'] != 'Struct':
+        return False
+    idx = next((i for i, f in enumerate(a['variants'][0]['fields']) if f['name'] == name), None)
+    if idx is None:
+        return False
+    ok = True
+    n = 0
+    for f in F.all_fns:
+        for b, si, st in f.stmts():
+            if st['k'] != 'assign':
+                continue
+            pr = st['place']['proj']
+            val = None
+            if pr and isinstance(pr[-1], dict) and pr[-1].get('name') == name and pr[-1].get('of') == adt:
+                if st['rv']['k'] == 'use':
+                    val = sym(f, st['rv']['op'])
+                elif st['rv']['k'] == 'cast':
+                    val = ('cast', sym(f, st['rv']['op']), st['rv']['to'], st['rv'].get('from'))
+                else:
+                    ok = False
+            elif st['rv']['k'] == 'aggregate' and st['rv'].get('adt') == adt and idx < len(st['rv']['ops']):
+                val = sym(f, st['rv']['ops'][idx])
+            elif st['rv']['k'] in ('ref', 'rawptr') and st['rv'].get('mut') and any(isinstance(e, dict) and e.get('name') == name and e.get('of') == adt for e in st['rv']['place']['proj']):
+                ok = False      # a &mut to the field escapes
+            if val is not None:
+                n += 1
+                if not bounded_small(F, f, val, depth + 1):
+                    ok = False
+        for b, t in f.calls():
+            d = t['dest']['proj']
+            if d and isinstance(d[-1], dict) and d[-1].get('name') == name and d[-1].get('of') == adt:
+                n += 1
+                if not bounded_small(F, f, sym_call(f, t), depth + 1):
+                    ok = False
+    cache[key] = ok and n > 0
+    return cache[key]
+
+
+def sym_call(fn, t):
+    return ('call', callee_name(t), tuple(sym(fn, a) for a in t['args']))
+
+
+def bounded_small(F, fn, v, depth=0):
+    """the value is provably below 2^32 (so that sums of two such values cannot overflow a 64-bit usize)"""
+    if depth > 4 or not isinstance(v, tuple) or not v:
+        return False
+    if v[0] == 'int':
+        return 0 <= v[1] < (1 << 32)
+    if v[0] == 'cast':
+        if len(v) > 3 and v[3] in NARROW:
+            return True
+        return bounded_small(F, fn, v[1], depth + 1) if len(v) > 3 and v[3] in ('usize', 'u64') else False
+    if v[0] == 'call' and v[1].endswith('::from') and any(('From<%s>' % n_) in v[1] for n_ in NARROW):
+        return True
+    if v[0] == 'field' and isinstance(v[1], tuple) and v[1][0] in ('deref', 'param', 'mlocal'):
+        base = v[1][1] if v[1][0] == 'deref' else v[1]
+        if isinstance(base, tuple) and base and base[0] in ('param', 'mlocal'):
+            ty = fn.local_ty(base[1])
+            ty = ty.replace("&'{erased} mut ", '').replace("&'{erased} ", '')
+            return field_bounded(F, ty, v[2], depth + 1)
+    return False
+
+
 def narrow_unsigned(v):
     """value is a widening cast of a u8/u16/u32"""
     return isinstance(v, tuple) and v[0] == 'cast' and v[2] in ('usize', 'u64') and True
@@ -59,6 +134,8 @@ def discharge(F, site):
                     return 'D2', 'usize counter plus a length/small constant cannot overflow (bounded by memory size)'
                 if a[0] == 'cast' and bb[0] == 'cast' and a[2] == 'usize' and bb[2] == 'usize':
                     return 'D2', 'sum of two widened narrow integers'
+                if bounded_small(F, fn, a) and bounded_small(F, fn, bb):
+                    return 'D2', 'sum of two values that are widened narrow integers (fields: every store is one)'
             if op == 'Add' and ty in ('isize', 'i64'):
                 # index += len as isize, guarded by index < 0
                 for x, y in ((a, bb), (bb, a)):
@@ -116,6 +193,166 @@ def discharge(F, site):
                 return 'D1', 'dominated by is_some()/is_ok() on the same value'
         return None
     return None
+
+
+# ---- D1p: path-sensitive guard discharge ---------------------------------------------------------
+# The dominance argument of D1 needs the guard and the access to name the same single-definition temporaries.  After a
+# helper has been spliced in (mirlib.inline_new_helpers) the guarded value travels through `Ok(..)` and `?`, which only a
+# path-sensitive evaluation sees through.  D1p enumerates the paths of the body (loops cut at two visits), and requires on
+# EVERY path reaching the site a branch taken earlier on that path whose condition, with the values of that path, states
+# index < count of the same container, with no call in between that could change the container.
+_NONMUT = ('::len', '::is_empty', 'Index<I>>::index', '::as_ptr', '::iter', '::chars', '::char_indices', 'Deref>::deref', '::as_str',
+           '::count', '::nth', '::unwrap', '::get', '::first', '::last', 'IndexMut<I>>::index_mut', '::as_slice', '::as_bytes',
+           'Iterator::next', '::into_iter', '::clone', 'object::Object::as_vec', 'object::Object::as_str')
+
+
+def _pv_strip(v):
+    while isinstance(v, tuple) and v and v[0] == 'cast' and v[1][0] in ('ref', 'cast'):
+        v = v[1]
+    return v
+
+
+_VIEW = ('Deref>::deref', 'DerefMut>::deref_mut', '::as_slice', '::as_mut_slice', '::as_str', '::as_mut_str', '::as_mut')
+
+
+def _container(v, env=None, depth=0):
+    """identity of the container a reference designates: the place key, or the producing call.  A reference obtained through
+    deref()/as_str() of X designates X's buffer."""
+    v = _pv_strip(v)
+    if depth > 8:
+        return ('val', v)
+    if isinstance(v, tuple) and v and v[0] == 'call' and v[1].endswith(_VIEW) and v[2]:
+        return _container(v[2][0], env, depth + 1)
+    if isinstance(v, tuple) and v and v[0] == 'ref':
+        key = v[1]
+        if env is not None and key.endswith('.*') and key[:-2] in env:
+            inner = _pv_strip(env[key[:-2]])
+            if isinstance(inner, tuple) and inner and (inner[0] == 'ref' or (inner[0] == 'call' and inner[1].endswith(_VIEW))):
+                return _container(inner, env, depth + 1)
+        return ('place', key)
+    if isinstance(v, tuple) and v and v[0] == 'call':
+        return ('val', v[1], tuple(_container(a, env, depth + 1) for a in v[2]))
+    return ('val', v)
+
+
+def _count_of(v, env=None):
+    """('count', unit, container) when v is a length/count of a container"""
+    w = v
+    while isinstance(w, tuple) and w and w[0] == 'cast' and w[3] in ('IntToInt',) and w[2] in ('usize', 'u64'):
+        w = w[1]
+    if isinstance(w, tuple) and w:
+        if w[0] == 'call' and w[1] in psc.LEN_FNS and len(w[2]) == 1:
+            return ('count', 'len', _container(w[2][0], env))
+        if w[0] == 'unop' and w[1] == 'PtrMetadata':
+            return ('count', 'len', _container(w[2], env))
+        if w[0] == 'call' and w[1].endswith('::count') and w[2] and w[2][0][0] == 'call' and w[2][0][1].endswith('::chars'):
+            return ('count', 'chars', _container(w[2][0][2][0], env))
+    return None
+
+
+def _path_data(F, fn, block):
+    key = ('_d1p', fn.path, fn.crate, block)
+    cache = F.__dict__.setdefault('_d1p_cache', {})
+    if key not in cache:
+        if len(fn.blocks) > 260:
+            cache[key] = None
+        else:
+            ai = AbsInt(F, fn, max_paths=6000, watch={block})
+            ps = ai.run()
+            cache[key] = None if ai.truncated else ps
+    return cache[key]
+
+
+def _lt_established(p, pos, I, want_count, env):
+    """a constraint before position pos on path p that states I < want_count, not invalidated afterwards"""
+    for ci, (what, val, cb) in enumerate(p.constraints):
+        if p.cpos[ci] >= pos or what[0] != 'switch':
+            continue
+        c = what[1]
+        truth = None if val is None else bool(val)
+        if truth is None:
+            truth = True      # the otherwise edge of a bool switch is `true`
+        while isinstance(c, tuple) and c[0] == 'unop' and c[1] == 'Not':
+            c = c[2]
+            truth = not truth
+        if not (isinstance(c, tuple) and c[0] == 'binop' and c[1] in ('Lt', 'Le', 'Gt', 'Ge')):
+            continue
+        op = c[1]
+        if not truth:
+            op = {'Lt': 'Ge', 'Le': 'Gt', 'Gt': 'Le', 'Ge': 'Lt'}[op]
+        a, b = c[2], c[3]
+        if op == 'Gt':
+            a, b, op = b, a, 'Lt'
+        if op != 'Lt':
+            continue
+        if a != I or _count_of(b, env) != want_count:
+            continue
+        # nothing between the guard and the site may change the container
+        cont = want_count[2]
+        bad = False
+        for k, cl in enumerate(p.calls):
+            if p.cpos[ci] < p.callpos[k] < pos:
+                if any(_container(x, env) == cont for x in cl[2] if isinstance(x, tuple)) and not any(cl[1].endswith(s) for s in _NONMUT):
+                    bad = True
+        if not bad:
+            return True
+    return False
+
+
+def path_discharge(F, site):
+    fn = site['f']
+    t = site['term']
+    b = site['block']
+    n = site['what']
+    kind = None
+    if site['kind'] == 'call' and psc.is_index_call(n) and len(t['args']) == 2:
+        kind = 'index'
+    elif site['kind'] == 'call' and n.endswith('Option::<T>::unwrap'):
+        kind = 'nth'
+    elif site['kind'] == 'assert' and t['msg'] == 'BoundsCheck':
+        kind = 'bounds'
+    if kind is None:
+        return None
+    ps = _path_data(F, fn, b)
+    if ps is None:
+        return None
+    reached = 0
+    for p in ps:
+        for pos, sb, env in p.snaps:
+            if sb != b:
+                continue
+            reached += 1
+            ai = AbsInt(F, fn)
+            if kind == 'index':
+                recv = ai.eval_op(env, t['args'][0])
+                I = ai.eval_op(env, t['args'][1])
+                want = ('count', 'len', _container(recv, env))
+            elif kind == 'nth':
+                o = ai.eval_op(env, t['args'][0])
+                if o[0] == 'call' and o[1].endswith('Option::<T>::map') and o[2]:
+                    o = o[2][0]          # map() keeps None/Some
+                if not (o[0] == 'call' and o[1].endswith('Iterator::nth') and len(o[2]) == 2):
+                    return None
+                it = o[2][0]
+                it = env.get(it[1], it) if it[0] == 'ref' else it
+                if not (it[0] == 'call' and it[1].endswith(('::chars', '::char_indices'))):
+                    return None
+                I = o[2][1]
+                want = ('count', 'chars', _container(it[2][0], env))
+            else:
+                c = ai.eval_op(env, t['cond'])
+                if not (c[0] == 'binop' and c[1] == 'Lt'):
+                    return None
+                I = c[2]
+                want = _count_of(c[3], env)
+                if want is None:
+                    return None
+            if not _lt_established(p, pos, I, want, env):
+                return None
+    if not reached:
+        return None
+    return 'D1p', 'on each of the %d paths reaching the site a branch taken earlier establishes index < %s of the same container' % (reached, 'chars().count()' if want[1] == 'chars' else 'len()')
+
 
 
 # ---- D3: structural invariants proved by other rules -------------------------------------------
@@ -452,6 +689,10 @@ def verdict_for(ctx, s, rows=None, cache=None):
                     continue
                 verdict = (ok, 'D3[%s]: %s' % (rule, why))
                 break
+    if verdict is None or not verdict[0]:
+        pd = path_discharge(F, s)
+        if pd:
+            verdict = (True, '%s: %s' % pd)
     if verdict is None:
         if s['kind'] == 'call' and what.endswith('::unwrap') and 'try_into' in str(sym(fn, t['args'][0]))[:80]:
             verdict = (False, 'D4: a size conversion (position/count -> u16/u8) panics when the program is too large')
